@@ -233,3 +233,291 @@ package midi
 //@ requires distinct2(channel, key)
 //@ modifies *channel, *key
 //@ ensures [P:C08] is ==> (typeOfB(len(m), m[0]) == NoteOnMsg || typeOfB(len(m), m[0]) == NoteOffMsg)
+
+// ---------------------------------------------------------------- proof harnesses (lemmas over the contracts)
+
+// verifPartition: every byte string belongs to exactly one of the five categories (C08).
+func verifPartition(m Message) (n int) {
+	if m.Is(ChannelMsg) {
+		n++
+	}
+	if m.Is(SysCommonMsg) {
+		n++
+	}
+	if m.Is(RealTimeMsg) {
+		n++
+	}
+	if m.Is(SysExMsg) {
+		n++
+	}
+	if m.Is(UnknownMsg) {
+		n++
+	}
+	return n
+}
+
+//@ func verifPartition
+//@ ensures [P:C08] n == 1
+
+// verifAtMostOne: at most one type-specific accessor accepts a byte string (C08; the derived
+// views GetNoteStart, GetNoteEnd and GetChannel are exempt as in the statement).
+func verifAtMostOne(m Message) (n int) {
+	var sx []byte
+	if m.GetNoteOn(nil, nil, nil) {
+		n++
+	}
+	if m.GetNoteOff(nil, nil, nil) {
+		n++
+	}
+	if m.GetPolyAfterTouch(nil, nil, nil) {
+		n++
+	}
+	if m.GetControlChange(nil, nil, nil) {
+		n++
+	}
+	if m.GetAfterTouch(nil, nil) {
+		n++
+	}
+	if m.GetProgramChange(nil, nil) {
+		n++
+	}
+	if m.GetPitchBend(nil, nil, nil) {
+		n++
+	}
+	if m.GetMTC(nil) {
+		n++
+	}
+	if m.GetSPP(nil) {
+		n++
+	}
+	if m.GetSongSelect(nil) {
+		n++
+	}
+	if m.GetSysEx(&sx) {
+		n++
+	}
+	return n
+}
+
+//@ func verifAtMostOne
+//@ inline
+//@ ensures [P:C08] n <= 1
+
+// verifInverseNoteOn: the matching accessor recovers the (clamped) constructor arguments (C07).
+func verifInverseNoteOn(c, k, v uint8) (ok bool, ch, key, vel uint8) {
+	m := NoteOn(c, k, v)
+	ok = m.GetNoteOn(&ch, &key, &vel)
+	return
+}
+
+//@ func verifInverseNoteOn
+//@ ensures [P:C07] ok && ch == clampCh(c) && key == clamp7(k) && vel == clamp7(v)
+
+// verifExclusiveNoteOn: every other type-specific accessor rejects the constructor's output (C07).
+func verifExclusiveNoteOn(c, k, v uint8) int {
+	m := NoteOn(c, k, v)
+	n := verifAtMostOne(m)
+	if m.GetNoteOn(nil, nil, nil) {
+		n--
+	}
+	return n
+}
+
+//@ func verifExclusiveNoteOn
+//@ ensures [P:C07] result == 0
+
+// verifInverseNoteOffVelocity: the matching accessor recovers the (clamped) constructor arguments (C07).
+func verifInverseNoteOffVelocity(c, k, v uint8) (ok bool, ch, key, vel uint8) {
+	m := NoteOffVelocity(c, k, v)
+	ok = m.GetNoteOff(&ch, &key, &vel)
+	return
+}
+
+//@ func verifInverseNoteOffVelocity
+//@ ensures [P:C07] ok && ch == clampCh(c) && key == clamp7(k) && vel == clamp7(v)
+
+// verifExclusiveNoteOffVelocity: every other type-specific accessor rejects the constructor's output (C07).
+func verifExclusiveNoteOffVelocity(c, k, v uint8) int {
+	m := NoteOffVelocity(c, k, v)
+	n := verifAtMostOne(m)
+	if m.GetNoteOff(nil, nil, nil) {
+		n--
+	}
+	return n
+}
+
+//@ func verifExclusiveNoteOffVelocity
+//@ ensures [P:C07] result == 0
+
+// verifInverseNoteOff: the matching accessor recovers the (clamped) constructor arguments (C07).
+func verifInverseNoteOff(c, k uint8) (ok bool, ch, key, vel uint8) {
+	m := NoteOff(c, k)
+	ok = m.GetNoteOff(&ch, &key, &vel)
+	return
+}
+
+//@ func verifInverseNoteOff
+//@ ensures [P:C07] ok && ch == clampCh(c) && key == clamp7(k) && vel == 0
+
+// verifExclusiveNoteOff: every other type-specific accessor rejects the constructor's output (C07).
+func verifExclusiveNoteOff(c, k uint8) int {
+	m := NoteOff(c, k)
+	n := verifAtMostOne(m)
+	if m.GetNoteOff(nil, nil, nil) {
+		n--
+	}
+	return n
+}
+
+//@ func verifExclusiveNoteOff
+//@ ensures [P:C07] result == 0
+
+// verifInversePolyAfterTouch: the matching accessor recovers the (clamped) constructor arguments (C07).
+func verifInversePolyAfterTouch(c, k, v uint8) (ok bool, ch, key, vel uint8) {
+	m := PolyAfterTouch(c, k, v)
+	ok = m.GetPolyAfterTouch(&ch, &key, &vel)
+	return
+}
+
+//@ func verifInversePolyAfterTouch
+//@ ensures [P:C07] ok && ch == clampCh(c) && key == clamp7(k) && vel == clamp7(v)
+
+// verifExclusivePolyAfterTouch: every other type-specific accessor rejects the constructor's output (C07).
+func verifExclusivePolyAfterTouch(c, k, v uint8) int {
+	m := PolyAfterTouch(c, k, v)
+	n := verifAtMostOne(m)
+	if m.GetPolyAfterTouch(nil, nil, nil) {
+		n--
+	}
+	return n
+}
+
+//@ func verifExclusivePolyAfterTouch
+//@ ensures [P:C07] result == 0
+
+// verifInverseControlChange: the matching accessor recovers the (clamped) constructor arguments (C07).
+func verifInverseControlChange(c, k, v uint8) (ok bool, ch, key, vel uint8) {
+	m := ControlChange(c, k, v)
+	ok = m.GetControlChange(&ch, &key, &vel)
+	return
+}
+
+//@ func verifInverseControlChange
+//@ ensures [P:C07] ok && ch == clampCh(c) && key == clamp7(k) && vel == clamp7(v)
+
+// verifExclusiveControlChange: every other type-specific accessor rejects the constructor's output (C07).
+func verifExclusiveControlChange(c, k, v uint8) int {
+	m := ControlChange(c, k, v)
+	n := verifAtMostOne(m)
+	if m.GetControlChange(nil, nil, nil) {
+		n--
+	}
+	return n
+}
+
+//@ func verifExclusiveControlChange
+//@ ensures [P:C07] result == 0
+
+// verifInverseProgramChange: the matching accessor recovers the (clamped) constructor arguments (C07).
+func verifInverseProgramChange(c, k uint8) (ok bool, ch, key uint8) {
+	m := ProgramChange(c, k)
+	ok = m.GetProgramChange(&ch, &key)
+	return
+}
+
+//@ func verifInverseProgramChange
+//@ ensures [P:C07] ok && ch == clampCh(c) && key == clamp7(k)
+
+// verifExclusiveProgramChange: every other type-specific accessor rejects the constructor's output (C07).
+func verifExclusiveProgramChange(c, k uint8) int {
+	m := ProgramChange(c, k)
+	n := verifAtMostOne(m)
+	if m.GetProgramChange(nil, nil) {
+		n--
+	}
+	return n
+}
+
+//@ func verifExclusiveProgramChange
+//@ ensures [P:C07] result == 0
+
+// verifInverseAfterTouch: the matching accessor recovers the (clamped) constructor arguments (C07).
+func verifInverseAfterTouch(c, k uint8) (ok bool, ch, key uint8) {
+	m := AfterTouch(c, k)
+	ok = m.GetAfterTouch(&ch, &key)
+	return
+}
+
+//@ func verifInverseAfterTouch
+//@ ensures [P:C07] ok && ch == clampCh(c) && key == clamp7(k)
+
+// verifExclusiveAfterTouch: every other type-specific accessor rejects the constructor's output (C07).
+func verifExclusiveAfterTouch(c, k uint8) int {
+	m := AfterTouch(c, k)
+	n := verifAtMostOne(m)
+	if m.GetAfterTouch(nil, nil) {
+		n--
+	}
+	return n
+}
+
+//@ func verifExclusiveAfterTouch
+//@ ensures [P:C07] result == 0
+
+// verifInversePitchbend: GetPitchBend recovers the clamped value and its unsigned form (C07).
+func verifInversePitchbend(c uint8, v int16) (ok bool, ch uint8, rel int16, abs uint16) {
+	m := Pitchbend(c, v)
+	ok = m.GetPitchBend(&ch, &rel, &abs)
+	return
+}
+
+//@ func verifInversePitchbend
+//@ ensures [P:C07] ok && ch == clampCh(c) && rel == pbClamp(v) && abs == pbUnsigned(v)
+
+// verifInverseSPP: GetSPP recovers the 14 bit song position (C07).
+func verifInverseSPP(p uint16) (ok bool, spp uint16) {
+	m := SPP(p)
+	ok = m.GetSPP(&spp)
+	return
+}
+
+//@ func verifInverseSPP
+//@ ensures [P:C07] ok && spp == (p & 0x3FFF)
+
+// verifInverseSongSelect / verifInverseMTC: in-range arguments come back unchanged (C07).
+func verifInverseSongSelect(s uint8) (ok bool, song uint8) {
+	m := SongSelect(s)
+	ok = m.GetSongSelect(&song)
+	return
+}
+
+//@ func verifInverseSongSelect
+//@ ensures [P:C07] ok && (s < 0x80 ==> song == s)
+
+func verifInverseMTC(q uint8) (ok bool, qf uint8) {
+	m := MTC(q)
+	ok = m.GetMTC(&qf)
+	return
+}
+
+//@ func verifInverseMTC
+//@ ensures [P:C07] ok && (q < 0x80 ==> qf == q)
+
+// verifExclusiveSys: system common constructor outputs are accepted by exactly one accessor (C07).
+func verifExclusiveSys(p uint16, s uint8, which uint8) int {
+	var m Message
+	switch which {
+	case 0:
+		m = SPP(p)
+	case 1:
+		m = SongSelect(s)
+	case 2:
+		m = MTC(s)
+	default:
+		m = Pitchbend(s, int16(p))
+	}
+	return verifAtMostOne(m)
+}
+
+//@ func verifExclusiveSys
+//@ ensures [P:C07] result <= 1
